@@ -96,7 +96,7 @@ def gen_block(rng, depth, budget):
             out.append(['seterrcall', kind, rng.randrange(4)])
         elif r < 0.62 or depth >= 4:
             out.append(['probe', rng.choice(KINDS), int(rng.random() < 0.8),
-                        rng.randrange(3)])
+                        rng.randrange(4)])
         elif r < 0.88:
             out.append(['with', gen_kwargs(rng),
                         gen_block(rng, depth + 1, budget),
@@ -163,6 +163,13 @@ def _trip(kind, form):
         return t.filter(lambda v, i, md: True,
                         axis='sample' if kind == 'obsdup' else 'observation',
                         inplace=True)
+    if kind in ('obsdup', 'sampdup') and form == 3:
+        # the construction route of the classic-text reader
+        if kind == 'obsdup':
+            lines = ['#OTU ID\tx\ty', 'a\t1.0\t2.0', 'a\t3.0\t4.0']
+        else:
+            lines = ['#OTU ID\tx\tx', 'a\t1.0\t2.0', 'b\t3.0\t4.0']
+        return Table.from_tsv(lines, None, None, lambda x: x)
     if kind == 'obsdup':
         if form == 1:
             t = Table(m, ['a', 'b'], ['x', 'y'])
